@@ -12,7 +12,8 @@
   The model follows the code *as written*: every leaf setter parses into a local and assigns
   to the field only after all checks have passed (numbers: error code, then trailing-characters
   check; durations: every component incl. the range checks; vec: every element), so a leaf is
-  written exactly when the setter returns normally.
+  written exactly when the setter returns normally — except `vec_from_file` in its direct form
+  while `Env.vffEmplaceFirst` holds (see `setVff`).
 
   Strings are `List Char` (the C++ works on UTF-8 bytes; every delimiter the code looks for is
   ASCII, so splitting on characters and on bytes coincide).  The tables (`Env`, `DurCfg`) are
@@ -38,6 +39,7 @@ inductive Kind where
   | dur (resNs : Nat)            -- `std::chrono::duration`, period in ns
   | vec
   | struct (name : String)       -- struct with a `PARAMS_TABLE`
+  | vff (expected : Int)         -- `params::vec_from_file` with its fixed `expected_size`
   | other (cxx : String)         -- member type without any `set_param` (never in a table)
   deriving DecidableEq, Repr, Inhabited
 
@@ -48,12 +50,26 @@ structure Entry where
   kind : Kind
   deriving DecidableEq, Repr, Inhabited
 
+/-- What `std::ifstream f(path)` followed by `csv::read_row_std_vector<real_t>(f)` sees: no such
+    file, or the tokens of the first data row (the CSV reader itself is property C17; here it is
+    an oracle: each token is then converted with `from_chars`, all of it or `read_error`). -/
+inductive FileRow where
+  | missing
+  | row (toks : List (List Char))
+  deriving DecidableEq, Repr, Inhabited
+
 structure Env where
   /-- struct name ↦ its `PARAMS_TABLE` in source order -/
   structs : List (String × List Entry)
   /-- enum name ↦ its `ENUM_TABLE`: enumerator name ↦ underlying value -/
   enums : List (String × List (String × Int))
-  deriving Repr, Inhabited
+  /-- `set_param(vec_from_file&, …)`, direct form: does the code engage / overwrite `v.value`
+      *before* parsing and checking the size (`set_param(v.value.emplace(), s)`), or only after
+      both succeeded?  Re-read from params.cpp on every run (`Gen.C18.vffDirectSteps`). -/
+  vffEmplaceFirst : Bool
+  /-- the file system seen by the `@file` form (default: no file exists) -/
+  files : List Char → FileRow := fun _ => .missing
+  deriving Inhabited
 
 def Env.table (env : Env) (name : String) : List Entry :=
   match env.structs.find? (·.1 == name) with
@@ -84,12 +100,14 @@ inductive Leaf (R : Type) where
   | e (v : Int)
   | d (ticks : Int)
   | v (xs : List R)
+  | o (x : Option (List R))      -- `std::optional<vec>` of a `vec_from_file`
   deriving DecidableEq, Repr, Inhabited
 
 inductive Err where
   | invalidKey | indexed | badBool | badEnum
   | numInvalid | numRange | numSuffix
   | durValue | durUnits
+  | fileOpen | fileRead | badSize
   | unsupported | fuel
   deriving DecidableEq, Repr, Inhabited
 
@@ -238,6 +256,42 @@ def setVecElems {R} (parseReal : Str → NumRes R) : List Str → List R → Lis
     | .ok v [] => setVecElems parseReal ps (done ++ [v])
     | .ok v (_ :: _) => (done ++ [v], some .numSuffix)
 
+/-- `read_row_std_vector`'s conversion of the tokens of the row: every token entirely a number. -/
+def readRow {R} (parseReal : Str → NumRes R) : List Str → Option (List R)
+  | [] => some []
+  | t :: ts =>
+    match parseReal t with
+    | .ok v [] => (readRow parseReal ts).map (v :: ·)
+    | _ => none
+
+/-- `v.expected_size >= 0 && size != v.expected_size` -/
+def sizeMismatch (expected : Int) (n : Nat) : Bool := decide (0 ≤ expected) && decide ((n : Int) ≠ expected)
+
+/-- `set_param(vec_from_file<config_t> &v, ParamString s)` after `assert_key_empty`.
+    `@path`: open (else `Unable to open file`), read the first row (else `Unable to read from
+    file`), check the size (else `Incorrect size`), only then `v.value.emplace(row)`.
+    Otherwise the value is a vec literal.  `emplaceFirst = true` is
+    `set_param(v.value.emplace(), s); if (size mismatch) throw`: the optional is engaged with an
+    empty vector first, so a rejected element leaves `some []` and a size mismatch leaves the
+    parsed vector stored.  `emplaceFirst = false`: parse into a local, check, then store. -/
+def setVff {R} (files : Str → FileRow) (emplaceFirst : Bool) (parseReal : Str → NumRes R) (expected : Int)
+    (value : Str) : Option (Leaf R) × Option Err :=
+  match value with
+  | '@' :: path =>
+    match files path with
+    | .missing => (none, some .fileOpen)
+    | .row toks =>
+      match readRow parseReal toks with
+      | none => (none, some .fileRead)
+      | some xs => if sizeMismatch expected xs.length then (none, some .badSize) else (some (.o (some xs)), none)
+  | _ =>
+    match setVecElems parseReal (pieces (value.count ',' + 1) value) [] with
+    | (xs, none) =>
+      if sizeMismatch expected xs.length then
+        (if emplaceFirst then some (.o (some xs)) else none, some .badSize)
+      else (some (.o (some xs)), none)
+    | (_, some e) => (if emplaceFirst then some (.o (some [])) else none, some e)
+
 section leaf
 variable {R : Type} [Sub R] [Mul R] [Div R] [LT R] [DecidableLT R] [BEq R] [DurScalar R]
 
@@ -254,6 +308,9 @@ def setLeaf (env : Env) (cfg : DurCfg) (parseReal : Str → NumRes R) (k : Kind)
     | (_, some e) => (none, some e)
   | .struct _ => (none, some .unsupported)
   | .other _ => (none, some .unsupported)
+  | .vff expected =>
+    if !key.isEmpty then (none, some .indexed)
+    else setVff env.files env.vffEmplaceFirst parseReal expected value
   | .bool =>
     if !key.isEmpty then (none, some .indexed)
     else if value == "0".toList || value == "false".toList then (some (.b false), none)
